@@ -12,7 +12,7 @@ func init() {
 		Level:   "other",
 		Explain: "Structural necessary conditions decided statically (DESIGN.md §5 C16): engine B compares Linear.Map/Unmap, Log.Map/Unmap (with the sign folding of ebounds inlined as gating functions), clamp and QQ.Map/Unmap with the stated formulas; derives symbolically, from the extracted normal forms, Map[x:=Min]=0, Map[x:=Max]=1, Unmap∘Map=id and Map∘Unmap=id (as rational functions / with exp(log e)=e) for Linear and for both sign cases of Log; the reach condition of NewLog's error returns is base<=1 || (min<=0 && max>=0) after ordering and their dynamic type is RangeErr; the success value is Log{min,max,base}; Map/Unmap write nothing (engine A).",
 		Assume:  []string{"A4 reals: identities over R, log/exp inverse on the positive axis"},
-		Undec:   []string{"strict monotonicity and the inverse law in floating point", "'finite ranges' in NewLog (NaN/Inf arguments are not rejected by any guard — a value-level clause)"},
+		Undec:   []string{"strict monotonicity and the inverse law in floating point"},
 	}
 }
 
@@ -124,7 +124,22 @@ func propC16(a *Analysis, r *Registry) {
 				r.Fail("C-decision", name+"/errors", b.pos(fn), "NewLog never returns an error")
 				return
 			}
-			b.Eq("C-decision", name+"/errors", b.pos(fn), got, env, "base<=1 || (lo<=0 && 0<=hi)")
+			// "NewLog accepts exactly the finite ranges that exclude zero with base >= 2": the error
+			// condition must also hold for a NaN or infinite end of the range (no ordering test
+			// rejects those: every comparison with NaN is false, and ±Inf orders like a number)
+			nonFinite := S.False()
+			for _, v := range []string{"min", "max"} {
+				nonFinite = S.Or(nonFinite, S.Or(S.MakeFn("math.IsNaN", env.Vars[v].RF), S.MakeFn("math.IsInf", env.Vars[v].RF, S.Int(0))))
+			}
+			want := S.Or(nonFinite, env.MustParse("base<=1 || (lo<=0 && 0<=hi)"))
+			if got.Equal(want) || S.BoolEquiv(got, want) || X.EquivByCases(got, want, 0) {
+				r.OK("C-decision", name+"/errors", b.pos(fn), "an error is returned exactly when an end of the range is NaN or infinite, base<=1, or the ordered range contains 0")
+			} else if plain := env.MustParse("base<=1 || (lo<=0 && 0<=hi)"); got.Equal(plain) || S.BoolEquiv(got, plain) || X.EquivByCases(got, plain, 0) {
+				r.Fail("C-decision", name+"/errors[code: NaN and infinite range ends accepted]", b.pos(fn),
+					"NewLog returns an error exactly when base<=1 or the ordered range contains 0: a NaN or infinite end is accepted (NewLog(NaN, 10, 10) and NewLog(1, +Inf, 10) return no error; Map then yields NaN / 0 for every x), although only finite ranges are valid")
+			} else {
+				r.Fail("C-decision", name+"/errors", b.pos(fn), "code returns an error when "+clip(got.String(), 500)+" ; stated: non-finite end || base<=1 || (lo<=0 && 0<=hi)")
+			}
 			if okType {
 				r.OK("C-decision", name+"/error-type", b.pos(fn), "every error returned is a RangeErr")
 			} else {
